@@ -163,6 +163,45 @@ def run(R):
             if t2 is not None:
                 out["occupied_destination_cases"] = out.get("occupied_destination_cases", 0) + 1
                 one_case(R, H, M, t2, search, replace, out)
+    # a bystander that happens to carry the name apply uses for its temporary file (<stem>.<pid>.renamify.tmp beside an edited
+    # file: a leftover of a crashed run, or the user's own): whatever apply does, that entry is not in the plan and must survive
+    pid = H.p.pid
+    for i in range(4 if R.tier == "quick" else 40):
+        a, b2 = g.term_pair()
+        search, replace = gen.render(a, "Snake"), gen.render(b2, "Snake")
+        tmpn = f"d/notes.{pid}.renamify.tmp"
+        kind = i % 3
+        occ = ({"p": tmpn, "k": "f", "c": b"PRECIOUS USER DATA\n", "m": 0o600} if kind == 0 else
+               {"p": tmpn, "k": "l", "t": "y.txt"} if kind == 1 else {"p": tmpn, "k": "l", "t": "nowhere"})
+        tree = [{"p": "d", "k": "d", "m": 0o755}, {"p": "d/notes.txt", "k": "f", "c": (f"see {search} here\n").encode(), "m": 0o644},
+                {"p": "d/y.txt", "k": "f", "c": b"bystander y\n", "m": 0o644}, occ]
+        tj = cli.tree_json(tree)
+        sr = H.ask({"op": "scan_tree", "tree": tj, "search": core.hx(search), "replace": core.hx(replace)})
+        if not sr.get("ok") or not sr["plan"]["matches"]:
+            continue
+        ar = H.ask({"op": "apply_tree", "tree": tj, "plan": sr["plan"]})
+        out["temp_name_bystander_cases"] = out.get("temp_name_bystander_cases", 0) + 1
+        R.case(("temp_name_bystander", search, kind), nontrivial=True)
+        if "tree" not in ar:
+            out["fail"].append({"why": "apply_tree crashed", "resp": ar, "tree": tj, "search": search, "replace": replace})
+            continue
+        impl, t0 = al.harness_tree_dict(ar["tree"]), al.tree_dict(tree)
+        # the model writes the temp name with the literal PID: same scenario, occupant at the model's name
+        mtree = [dict(e, p=e["p"].replace(f".{pid}.", ".PID.")) for e in tree]
+        m = M.ask("apply_core", "none", al.aplan_sx(sr["plan"]), al.fs_sx(mtree))
+        if isinstance(m, list) and m[0] in ("true", "false"):
+            mfs = {k.replace(".PID.", f".{pid}."): v for k, v in al.user_only(al.fs_from_sx(m[2])).items()}
+            if (m[0] == "true") != bool(ar.get("ok")) or mfs != impl:
+                out["dis"].append({"why": "model apply_core differs from apply_plan when the temp name is occupied", "model_ok": m[0],
+                                   "impl_ok": ar.get("ok"), "diff": repr(al.diff_dict(mfs, impl))[:600], "tree": tj, "plan": sr["plan"]})
+        else:
+            out["dis"].append({"why": "model error", "resp": repr(m)[:300], "tree": tj})
+        for pth in (tmpn, "d/y.txt"):
+            if impl.get(pth) != t0.get(pth):
+                out["fail"].append({"why": f"apply (ok={ar.get('ok')}) changed or removed '{pth}', which the plan does not mention: it carried the name "
+                                           "apply uses for its temporary file", "tree": tj, "search": search, "replace": replace,
+                                    "plan": sr["plan"], "was": repr(t0.get(pth))[:200], "now": repr(impl.get(pth))[:200]})
+                break
     # CLI level: plan -> apply from the saved file on an unchanged tree
     cli_n = 5 if R.tier == "quick" else 40
     for i in range(cli_n):
